@@ -78,12 +78,15 @@ theorem msgRecvPacket_log (s : State) (p : Packet) (π : Proof) (h : Nat) (t : S
 theorem msgAcknowledgement_log (s : State) (p : Packet) (a : Data) (π : Proof) (h : Nat) :
     LogDelta H s (msgAcknowledgement H Hc s p a π h).1 := by
   unfold msgAcknowledgement
+  simp only
   split
   · exact .same rfl
   · rcases acknowledgePacket_cases H s.core p a π h with ⟨hok, e⟩ | ⟨_, e', e⟩
     · split
       · exact .same rfl
-      · exact .ack p a π h rfl hok
+      · split
+        · exact .ack p a π h rfl hok
+        · exact .same rfl
     · rw [e]; exact .same rfl
 
 theorem sendNftTransfer_cbLog (s : State) (cls id : Str) (sender receiver : Addr) (dst relay : Chain) (dc : String) :
